@@ -311,9 +311,14 @@ namespace occa {
               while (parentSmnt) {
                 const int sType = parentSmnt->type();
 
-                // Break/continue is for a non-okl while/switch statement
-                if (sType & (statementType::while_ |
-                             statementType::switch_)) {
+                // Break/continue is for a non-okl while loop
+                if (sType & statementType::while_) {
+                  return false;
+                }
+                // A switch only takes the break: a continue inside a switch
+                // still belongs to the enclosing loop
+                if ((sType & statementType::switch_)
+                    && (smnt->type() & statementType::break_)) {
                   return false;
                 }
 
